@@ -334,6 +334,10 @@ func checkC13(c *Ctx) (int, error) {
 				d.Class = "text"
 				nexts = append(nexts, namedStream{name: "zlib-dict", kind: kind, dict: &dd,
 					s: RStream{Enc: []EncSpec{{Impl: "std", Kind: "zlib", Level: 6, Window: 32768, Data: d, Dict: &dd}}}})
+				// a dictionary longer than the window, and a payload that repeats its end
+				ld := DataSpec{Class: "text", Seed: int64(1000 + fi), Len: 33000 + 9000*(fi%3)}
+				nexts = append(nexts, namedStream{name: "zlib-longdict", kind: kind, dict: &ld,
+					s: RStream{Enc: []EncSpec{{Impl: "std", Kind: "zlib", Level: 6, Window: 32768, Data: DataSpec{Class: "dicttail", Seed: ld.Seed, Period: ld.Len, Len: 5000}, Dict: &ld}}}})
 			}
 			for ni, nx := range nexts {
 				for stop, stopName := range []string{"unread", "partial", "eof", "corrupt", "srcerr", "fault", "single"} {
@@ -370,11 +374,21 @@ func checkC13(c *Ctx) (int, error) {
 						h1.Src.FailAt = 5 + rng.Intn(20)
 						h1.Reads = []int{4096}
 					}
+					if nx.dict != nil && stopName == "eof" {
+						// the earlier stream has a dictionary too: another one of the same length
+						od := *nx.dict
+						od.Seed += 77
+						h1.Stream = RStream{Enc: []EncSpec{{Impl: "std", Kind: "zlib", Level: 6, Window: 32768, Data: DataSpec{Class: "text", Seed: od.Seed, Len: 900}, Dict: &od}}}
+						h1.Dict = &od
+						h1.Reads = []int{4096}
+					}
 					arch := c.Levels[id%len(c.Levels)]
 					group := fmt.Sprintf("C13-%s-%d-%d-%d", kind, fi, ni, stop)
 					next := RSeg{Stream: nx.s, Src: srcWith(RSource{Kind: "bufio", BufSize: 4096}, chunkSchedules[(fi+ni)%len(chunkSchedules)]), Reads: readSchedules[(ni+stop)%len(readSchedules)], Multi: true, Dict: nx.dict}
 					fresh := &RCase{ID: fmt.Sprintf("C13-%d-fresh", id), Kind: kind, Arch: arch, Group: group, GClause: "C13.same_as_fresh", Tag: "fresh|" + nx.name, Segs: []RSeg{next}}
-					h1.Dict = nil
+					if !(nx.dict != nil && stopName == "eof") {
+						h1.Dict = nil
+					}
 					reused := &RCase{ID: fmt.Sprintf("C13-%d-reset", id), Kind: kind, Arch: arch, Group: group, GClause: "C13.same_as_fresh",
 						Tag: fmt.Sprintf("%s|%s|then %s", f1.name, stopName, nx.name), Segs: []RSeg{h1, next}}
 					if h0 != nil {
